@@ -91,8 +91,8 @@ class Canon:
             return (t.__name__, n, tuple(self.walk(v, ctx_file) for v in o))
         if t in (set, frozenset):
             return (t.__name__, n, tuple(sorted(repr(self.walk(v)) for v in o)))
-        r = repr(o)
         if "RLock" in t.__name__ or "lock" in t.__name__.lower():
+            r = repr(o)  # only for lock objects: repr() of a synced collection would reload it
             m = _LOCK_RE.search(r)
             if m:
                 return ("lock", m.group(1) != "0", int(m.group(2)))
@@ -113,7 +113,10 @@ class Canon:
             if hasattr(o, k):
                 out.append((k, self.walk(getattr(o, k), ctx_file)))
         if d is None and not slots:
-            out.append(("repr", re.sub(r"0x[0-9a-f]+", "0x", r)))
+            if t.__module__.startswith("synced_collections"):
+                out.append(("opaque", t.__qualname__))
+            else:
+                out.append(("repr", re.sub(r"0x[0-9a-f]+", "0x", repr(o))))
         return ("obj", n, tuple(out))
 
     def class_state(self, c):
